@@ -378,3 +378,10 @@ func orZero(v any) any {
 }
 
 func newRand(seed int64) *rand.Rand { return rand.New(rand.NewSource(seed*104729 + 7)) }
+
+func orEmpty(v any) any {
+	if v == nil {
+		return ""
+	}
+	return v
+}
